@@ -25,13 +25,33 @@ class Fault(ValueError):
     ValueError` around a Pillow call in the library — iterm2 native animation — sees it too)"""
 
 
+class FaultAttr(AttributeError):
+    """an injected failure that is an AttributeError (not about `_animator`)"""
+
+
+class FaultStop(StopIteration):
+    """an injected StopIteration (inside a generator it surfaces as RuntimeError, PEP 479)"""
+
+
+class FaultCustom(Exception):
+    """an injected failure of a class nobody handles specially"""
+
+
+class FaultKI(KeyboardInterrupt):
+    """an injected BaseException"""
+
+
+FAULT_CLASSES = {"value": Fault, "attr": FaultAttr, "stop": FaultStop, "custom": FaultCustom, "ki": FaultKI}
+
+
 class Rec:
     def __init__(self):
         self.on = False
         self.depth = 0
         self.reset()
 
-    def reset(self, fault=None):
+    def reset(self, fault=None, cls="value"):
+        self.fault_cls = FAULT_CLASSES[cls]
         self.events = []      # strings
         self.n = 0            # labels handed out
         self.calls = 0        # fault points passed
@@ -90,7 +110,7 @@ class Rec:
         self.calls += 1
         if self.fault is not None and k == self.fault:
             self.events.append(f"FAULT {kind}" + (f" {recv}" if recv else ""))
-            raise Fault(f"injected at Pillow call #{k} ({kind})")
+            raise self.fault_cls(f"injected at Pillow call #{k} ({kind})")
 
 
 rec = Rec()
